@@ -1,5 +1,6 @@
 import PbVerif.Lemmas.Backend
 import PbVerif.Lemmas.PSpline
+import PbVerif.Lemmas.BandMul
 /-! C10 — answers do not depend on the linear-algebra back end: the part that is logic (layout selection, solver routing, the
 matrix each solver reads from the array it is handed) is proved for all 4 × 2 configurations and every size; the numerical
 agreement of the solvers and of the compiled / uncompiled kernels is the correspondence (worker processes with the optional
@@ -33,6 +34,17 @@ theorem btb_paths_agree (deg nb d : Nat) (lam : Rat) (rows : List BSpline.Row) (
     denLower (PSpline.asmPspline deg nb d lam rows ys ws).1 i j = PSpline.btwbAt deg rows ws i j + lam * dtdQ nb d i j := by
   rw [Lemmas.pspline_asm_den deg nb d lam rows ys ws h hy hw i j hi hj, PSpline.docPspline, Lemmas.btbSpec_dense]
 
+/-- the banded `beads` implementation (numba present) forms its matrices with `_banded_dot_banded`; the sparse implementation
+(numba absent) with sparse matrix products: the band product IS the matrix product, for all band widths and sizes -/
+theorem banded_product (a b : BandMul.Tbl) (al au bl bu n : Nat) (ha : BandShape a al au n) (hb : BandShape b bl bu n)
+    (i j : Nat) (hi : i < n) (hj : j < n) :
+    BandMul.den (BandMul.bandedDotBanded a b al au bl bu n) (al + bl) (au + bu) n i j = BandMul.prodAt a b al au bl bu n i j :=
+  bandedDotBanded_den a b al au bl bu n ha hb i j hi hj
+theorem banded_product_shape (a b : BandMul.Tbl) (al au bl bu n : Nat) :
+    BandShape (BandMul.bandedDotBanded a b al au bl bu n) (al + bl) (au + bu) n := bandedDotBanded_shape a b al au bl bu n
+
+example : BandMul.bandedDotBanded [[0,1,2,3,4],[5,6,7,8,9],[1,1,1,1,0]] [[0,2,2,2,2],[3,3,3,3,3],[4,4,4,4,0],[5,5,5,0,0]] 1 1 2 1 5 =
+    [[0, 0, 2, 4, 6], [0, 13, 18, 23, 28], [19, 28, 35, 42, 29], [37, 46, 55, 39, 0], [39, 44, 49, 0, 0], [5, 5, 0, 0, 0]] := by decide +kernel
 example : route (setup 7 true 1 2 true none) 1 = .pentapy 1 ∧ route (setup 7 true 2 2 true none) 2 = .pentapy 2 ∧
     route (setup 7 true 3 2 true none) 3 = .solveh ∧ route (setup 7 true 4 2 true none) 4 = .solveBanded ∧
     route (setup 7 false 1 2 true none) 1 = .solveh ∧ route (setup 7 true 1 3 true none) 1 = .solveh ∧
